@@ -49,6 +49,13 @@ func C10(c *Ctx) int {
 			c.HandleRepoCex(o, r, nil)
 		}
 	}
+	if r, err := c.RunHarness(prog, Harness{Name: "codegen.TableAdversarial", Pkg: "internal/codegen", Func: "H_TableAdversarial", Reach: []string{"pairs-checked"}, Quiet: true,
+		Bounds: "concrete: twenty pairs of different rows that collide under plausible wrong row keys (digit concatenation, sums, permutations, prefixes, sign); not solver-decided"}); err != nil {
+		o.Broken = append(o.Broken, err.Error())
+	} else {
+		o.Add(r)
+		c.HandleRepoCex(o, r, nil)
+	}
 	c.ValidateSamples(o, nil, 4)
 
 	// K FindUnit / PushRuneUnit on code rendered from the current templates
